@@ -42,6 +42,7 @@ import (
 	"os"
 	"strconv"
 	"strings"
+	"verif/harness/rdr"
 
 	"github.com/sqlc-dev/doubleclick/lexer"
 	"github.com/sqlc-dev/doubleclick/parser"
@@ -85,7 +86,7 @@ func explainIn(src string) (res string) {
 	if inListAlias {
 		sql += " AS hit"
 	}
-	stmts, err := parser.Parse(context.Background(), strings.NewReader(sql))
+	stmts, err := parser.Parse(context.Background(), rdr.For(sql))
 	if err != nil || len(stmts) != 1 {
 		return "ERR\t-"
 	}
@@ -111,7 +112,7 @@ func explainOne(src string) (res string) {
 			res = "PANIC\t-"
 		}
 	}()
-	stmts, err := parser.Parse(context.Background(), strings.NewReader("SELECT "+src))
+	stmts, err := parser.Parse(context.Background(), rdr.For("SELECT "+src))
 	if err != nil || len(stmts) != 1 {
 		return "ERR\t-"
 	}
